@@ -132,6 +132,17 @@ Definition dec_op (fuel : nat) (l : list Z) : option op * list Z :=
     else if c =? 23 then (Some OEscapeAscii, t)
     else if c =? 24 then (Some ODebug, t)
     else if c =? 25 then (Some (OWritableWrote [] (hd 0 t)), tl t)
+    (* 26 / 27: Write::write_vectored / Read::read_vectored with the slices [empty; d1; d2] / [empty; k1 bytes; k2 bytes].
+       std's PROVIDED methods (library/std/src/io/mod.rs default_write_vectored / default_read_vectored) pass the first non-empty
+       slice to write / read: modelled here, in the decoder; an override in the crate shows as a disagreement *)
+    else if c =? 26 then
+      let '(d1, r) := take_list t in let '(d2, r2) := take_list r in
+      (Some (OIoWrite (if zlen d1 =? 0 then d2 else d1)), r2)
+    else if c =? 27 then
+      match t with
+      | k1 :: k2 :: r => (Some (OIoRead (repeat 221 (Z.to_nat (if k1 =? 0 then k2 else k1)))), r)
+      | _ => (None, [])
+      end
     else (None, t)
   end.
 
